@@ -164,6 +164,24 @@ fn hpx_uniq<T: Idx + num::CheckedAdd>(sink: &mut Sink, rng: &mut Rng, w: u32, th
     }
   }
   // nested ranges -> NUNIQ ranges -> nested ranges
+  {
+    let base = 1u64 << (Hpx::<T>::shift_from_depth_max(0) as u32);
+    let directed: Vec<(u8, Vec<Range<u64>>)> = vec![
+      (0, vec![0..12 * base]), (1, vec![3 * base..4 * base]), (2, vec![base..3 * base]), (0, vec![11 * base..12 * base]),
+      (1, vec![base / 4..base, 2 * base..3 * base + base / 4]), (max_depth, vec![5 * base..6 * base, 7 * base..7 * base + 1]),
+    ];
+    for (d, l) in directed {
+      let m: RangeMOC<T, Hpx<T>> = mk_moc(d, &l);
+      let ans = guarded(AssertUnwindSafe(|| {
+        let u = m.clone().into_moc_ranges().into_hpx_uniq();
+        let mut vals: Vec<u64> = Vec::new();
+        for r in u.iter() { vals.extend(r.start.to_u64()..r.end.to_u64()); }
+        vals.sort_unstable();
+        vals.iter().map(|x| x.to_string()).collect::<Vec<_>>().join(",")
+      }));
+      sink.emit(&format!("r_nuniq {} {} {}", w, d, fmt_ranges(&l)), &ans, true);
+    }
+  }
   let n = if thorough { 4000 } else { 400 };
   for i in 0..n {
     let d = if i % 2 == 0 { rng.below(3) as u8 } else { rng.below(max_depth as u64 + 1) as u8 };
@@ -180,6 +198,20 @@ fn hpx_uniq<T: Idx + num::CheckedAdd>(sink: &mut Sink, rng: &mut Rng, w: u32, th
       format!("{}|{}", d, fmt_ranges(&to_u64_ranges(&back.0 .0)))
     }));
     sink.emit(&format!("same hpx-uniq-ranges{} {} {}", w, d, fmt_ranges(&l)), &ans, !l.is_empty());
+    // the NUNIQ view itself must be the NORMAL form: exactly the NUNIQ numbers of the largest aligned cells
+    // (a representation covering the same set with four siblings instead of their parent is not)
+    let ans = guarded(AssertUnwindSafe(|| {
+      let u = m.clone().into_moc_ranges().into_hpx_uniq();
+      let mut vals: Vec<u64> = Vec::new();
+      for r in u.iter() {
+        let (a, b) = (r.start.to_u64(), r.end.to_u64());
+        if b < a || b - a > 4096 || vals.len() > 20000 { return format!("too-long-run {}-{}", a, b); }
+        vals.extend(a..b);
+      }
+      vals.sort_unstable();
+      if vals.is_empty() { "_".to_string() } else { vals.iter().map(|x| x.to_string()).collect::<Vec<_>>().join(",") }
+    }));
+    sink.emit(&format!("r_nuniq {} {} {}", w, d, fmt_ranges(&l)), &ans, !l.is_empty());
   }
 }
 
